@@ -146,7 +146,7 @@ def carry(kind, pairs, cls):
 def apply_model(lst, op):
     """Mutates *lst*; returns the documented return value."""
     name = op[0]
-    if name in ("rebuild", "copy"):
+    if name in ("rebuild", "copy", "fork_copy", "fork_ctor", "fork_extend", "swap"):
         return None
     if name == "extend_self":
         lst.extend(list(lst))
@@ -461,8 +461,34 @@ def run_history(clsname, history):
         warnings.simplefilter("ignore")
         d = cls()
         lst = []
+        # containers made *from* d at some point (d.copy(), cls(d), cls().extend(d)):
+        # each keeps the list it had then, whatever happens to d afterwards - and the
+        # other way round after a "swap" (the fork becomes the container under test)
+        forks = []
         for step, op in enumerate(history):
             op = tuple(op)
+            if op[0] in ("fork_copy", "fork_ctor", "fork_extend", "swap"):
+                try:
+                    if op[0] == "fork_copy":
+                        forks.append((d.copy(), list(lst)))
+                    elif op[0] == "fork_ctor":
+                        forks.append((cls(d), list(lst)))
+                    elif op[0] == "fork_extend":
+                        f = cls()
+                        f.extend(d)
+                        forks.append((f, list(lst)))
+                    elif forks:
+                        (d, lst), forks[-1] = forks[-1], (d, lst)
+                except Exception as e:
+                    return (f"C10/{op[0]}/outcome",
+                            f"step {step} {op!r}: raised {type(e).__name__}: {e}")
+                del forks[:-2]
+                for f, fl in forks + [(d, lst)]:
+                    why = check_views(f, fl, cls)
+                    if why is not None:
+                        return (f"C10/{op[0]}/views", f"step {step} {op!r}: {why}; "
+                                f"model list {fl!r}; real iter {safe_list(f)!r}")
+                continue
             # model first (on a copy so a model exception leaves lst intact)
             m = list(lst)
             try:
@@ -498,6 +524,13 @@ def run_history(clsname, history):
                 return (f"C10/{op[0]}/views",
                         f"step {step} {op!r}: {why}; model list {lst!r}; "
                         f"real iter {safe_list(d)!r}")
+            for f, fl in forks:
+                why = check_views(f, fl, cls)
+                if why is not None:
+                    return (f"C10/{op[0]}/views-of-another-container",
+                            f"step {step} {op!r} on one container changed what a "
+                            f"container made from it earlier shows: {why}; its model "
+                            f"list {fl!r}; real iter {safe_list(f)!r}")
     return None
 
 
@@ -558,7 +591,8 @@ def ex_ops():
             ("update_as", "keysobj", (("b", 2), ("a", 1))),
             ("insert_as", "lol", 1, (("b", 2), ("b", 1))),
             ("rebuild", "gen"), ("rebuild", "omd"), ("rebuild", "itemsobj"),
-            ("copy",), ("extend_self",), ("update_self",)]
+            ("copy",), ("extend_self",), ("update_self",),
+            ("fork_copy",), ("fork_ctor",), ("swap",)]
     return ops
 
 
@@ -634,6 +668,7 @@ def op_strategy():
                   st.sampled_from([c for c in CARRIERS if c not in UNIQUE_ONLY])),
         st.tuples(st.just("copy")),
         st.tuples(st.sampled_from(["extend_self", "update_self"])),
+        st.tuples(st.sampled_from(["fork_copy", "fork_ctor", "fork_extend", "swap"])),
     )
 
 
